@@ -163,6 +163,52 @@ pub fn gen(seed: u64, n: usize, _tier: &str) -> Vec<Case> {
         }
         cases.push(Case { id: format!("blk-{}", id), ops, outs: vec![] });
     }
+    cases.extend(gen_exec_atomic());
+    cases
+}
+
+/// EXEC is one step for the clients that wait on its keys too (C07): with one or two clients blocked on
+/// a list, a transaction pushes to it and then reads / pops it again; the waiters are served after the
+/// EXEC, from what the transaction left.  Deterministic; run by the checks of C07 and C13.
+pub fn gen_exec_atomic() -> Vec<Case> {
+    let mut cases = vec![];
+    let bl = |name: &[u8], keys: &[&[u8]]| -> V { let mut a: Vec<Vec<u8>> = vec![name.to_vec()]; for k in keys { a.push(k.to_vec()); } a.push(b"0".to_vec()); cmdo(&a) };
+    let txs: Vec<Vec<V>> = vec![
+        vec![cmdv(&[b"RPUSH", b"q", b"a"]), cmdv(&[b"LLEN", b"q"])],
+        vec![cmdv(&[b"RPUSH", b"q", b"a", b"b", b"c"]), cmdv(&[b"LLEN", b"q"]), cmdv(&[b"LRANGE", b"q", b"0", b"-1"]), cmdv(&[b"LPOP", b"q"]), cmdv(&[b"LLEN", b"q"])],
+        vec![cmdv(&[b"LPUSH", b"q", b"a"]), cmdv(&[b"LPOP", b"q"]), cmdv(&[b"RPUSH", b"q", b"b"])],
+        vec![cmdv(&[b"RPUSH", b"r", b"x"]), cmdv(&[b"RPUSH", b"q", b"a"]), cmdv(&[b"LLEN", b"r"]), cmdv(&[b"LLEN", b"q"])],
+        // a push made by a script, in the DSL syntax the model parses (see script_push)
+        vec![cmdo(&[b"EVAL".to_vec(), b"local r={}\nr[1]=redis.call(\"\\082\\080\\085\\083\\072\",KEYS[1],ARGV[1])\nreturn r[1]".to_vec(), b"1".to_vec(), b"q".to_vec(), b"a".to_vec()]), cmdv(&[b"LLEN", b"q"])],
+        vec![cmdv(&[b"RPUSH", b"q", b"a"]), cmdv(&[b"RPOP", b"q"]), cmdv(&[b"LLEN", b"q"])],
+    ];
+    let mut id = 0;
+    for tx in &txs {
+        for waiters in 0..3 {
+            for one_write in 0..2 {
+                let mut ops: Vec<Vec<Tok>> = vec![conn_op(OBS), bconn_op(1), bconn_op(2), bconn_op(3)];
+                ops.push(cmd_op(OBS, &[b"SET", b"s", b"str"]));
+                match waiters {
+                    0 => ops.push(bsend_op(1, &[bl(b"BLPOP", &[b"q"])])),
+                    1 => { ops.push(bsend_op(1, &[bl(b"BLPOP", &[b"q"])])); ops.push(bsend_op(2, &[bl(b"BRPOP", &[b"q"])])); }
+                    _ => { ops.push(bsend_op(1, &[bl(b"BRPOP", &[b"r", b"q"])])); ops.push(bsend_op(2, &[bl(b"BLPOP", &[b"q", b"r"])])); }
+                }
+                ops.push(vec![b("BDUMP"), i(0)]);
+                let mut b2 = vec![cmdv(&[b"MULTI"])]; b2.extend(tx.iter().cloned()); b2.push(cmdv(&[b"EXEC"]));
+                if one_write == 1 { ops.push(bsend_op(3, &b2)); } else { for q in &b2 { ops.push(bsend_op(3, &[q.clone()])); } }
+                ops.push(brecv_op(3));
+                ops.push(brecv_op(1)); ops.push(brecv_op(2));
+                ops.push(vec![b("BDUMP"), i(0)]);
+                // whoever is still waiting is served by a plain push
+                ops.push(cmd_op(OBS, &[b"RPUSH", b"q", b"y", b"z"]));
+                ops.push(brecv_op(1)); ops.push(brecv_op(2)); ops.push(brecv_op(3));
+                ops.push(vec![b("BDUMP"), i(0)]);
+                for k in LKEYS.iter().chain([&b"s"[..]].iter()) { ops.push(cmd_op(OBS, &[b"LRANGE", k, b"0", b"-1"])); ops.push(cmd_op(OBS, &[b"TYPE", k])); }
+                ops.push(cmd_op(OBS, &[b"KEYS", b"*"]));
+                cases.push(Case { id: format!("blkexec-{}", id), ops, outs: vec![] }); id += 1;
+            }
+        }
+    }
     cases
 }
 
